@@ -21,7 +21,7 @@ mesh: `n=<nNodes>;f=<a.b.c/d.e.f>;e=-` or `e=<nEdges>:<a.b.c/…>` (face_edge ro
 `propcheck-blur <shape> <bits> <size>`  → `OK`/`FAIL`: conclusion of blur_spec by brute force
 `propcheck-renumber <mesh> <truth> <hits> <buffer>` / `propcheck-renumber-current …` → `OK`/`FAIL`
 -/
-open Ems Ems.Proto
+open Ems Ems.Clip Ems.Proto
 
 def parseShape? (s : String) : Option (Nat × Nat) :=
   match s.splitOn "x" with
@@ -47,7 +47,7 @@ def parseRows? (s : String) : Option (List (List Nat)) :=
   if s == "" || s == "-" then some [] else
   allSome ((s.splitOn "/").map fun r => if r == "" then some [] else parseNatList? r ".")
 
-def parseMesh? (s : String) : Option Mesh :=
+def parseMesh? (s : String) : Option FaceMesh :=
   match s.splitOn ";" with
   | [n, f, e] =>
     match n.splitOn "=", f.splitOn "=", e.splitOn "=" with
